@@ -159,7 +159,7 @@ theorem take_add_of_prefix {pat s : Bytes} {i : Nat} (h : pat <+: s.drop i) :
   obtain ⟨t, ht⟩ := h
   rw [List.take_add, ← ht, List.take_left]
 
-theorem splice_correct' (code ct first rest : Bytes) (h : Go.contains (Go.toLower ct) htmlWord = true) :
+theorem splice_correct' (code ct first rest : Bytes) (h : isHTMLType ct = true) :
     (Go.index first headTag = none ∧ (shimBody code ct first rest).1 = first ++ rest) ∨
     (∃ i, Go.index (first ++ rest) headTag = some i ∧
       (shimBody code ct first rest).1 = (first ++ rest).take (i + 6) ++ code ++ (first ++ rest).drop (i + 6)) := by
